@@ -50,3 +50,4 @@ func (verifLoop) sel(*Scheduler, *chan<- *ScheduledJob, *chan *ScheduledJob, *<-
 }
 func (verifSel) restore(*Scheduler, *chan *ScheduledJob, *<-chan time.Time) {}
 func verifWaitSelect(_ *Scheduler, ctx context.Context) context.Context     { return ctx }
+func verifWaitTookDone(*Scheduler)                                          {}
